@@ -9,6 +9,8 @@ REPO, VERIF = "/repo", "/verif"
 EXTRA = {  # further properties whose statement the change also breaks (run in addition to the owner)
     "C02-2": ["C06"], "C06-1": ["C02"], "C05-2": ["C07"], "C08-2": ["C12"], "C12-1": ["C08"], "C09-2": ["C03"],
     "C03-1": [], "C11-2": ["C01"], "C07-1": ["C08"],
+    "C02-6": ["C08"], "C03-6": ["C09"], "C05-5": ["C03"], "C05-6": ["C09"], "C09-6": ["C10", "C08"], "C10-5": ["C07"], "C10-6": ["C05"],
+    "C01-6": ["C11"], "C11-5": ["C01"], "C07-6": ["C02"], "C04-5": ["C10"], "C13-5": [], "C12-6": ["C08"],
     "C02-4": ["C06"], "C04-4": ["C07"], "C06-3": ["C03"], "C06-4": ["C01"], "C07-4": ["C02"], "C08-3": ["C12"],
     "C10-3": ["C08"], "C10-4": ["C06", "C07"], "C12-3": ["C08"], "C05-4": ["C03"], "C03-4": ["C06"],
 }
